@@ -62,6 +62,12 @@ func labClasses(res *lab.Result) []string {
 	if res.Wedged {
 		cls = append(cls, "wedged")
 	}
+	if c.Faultless() {
+		cls = append(cls, "faultless-script")
+	}
+	if c.GateSrcAcks {
+		cls = append(cls, "acks-taken-at-scheduled-instants")
+	}
 	// the DLQ refused a record and accepted a later one (partial dead-letter write)
 	refused := map[int]bool{}
 	for _, e := range res.Events {
